@@ -311,3 +311,31 @@ Example C14_cloudrain_cuts :
   /\ cr_mm_read (firstn 35 (c_enc c)) 140 = Err
   /\ cr_mm_read (firstn 58 (c_enc c)) 232 = Ok (c_view_of c).
 Proof. vm_compute. repeat split. Qed.
+
+(* ======================================================================================================
+   CAMx land-use files (Model/Landuse.v): every byte prefix
+   ====================================================================================================== *)
+From PNC Require Import Model.Landuse Proofs.LanduseProofs.
+
+(* EVERY byte prefix of EVERY well-formed file, whatever the decodability of its first bytes: the reader accepts the prefix
+   only at the end of the land-use record or of an optional record, and then presents exactly the first records of the
+   content (such a prefix is itself a valid land-use file) *)
+Theorem C14_landuse_every_prefix : forall c dec n v, lu_wf c = true -> lu_sniff_ok c = true ->
+  0 <= n <= 4 * Z.of_nat (length (lu_enc c)) ->
+  lu_mm_read dec (lu_rows c) (lu_cols c) (firstn (Z.to_nat ((n + 3) / 4)) (lu_enc c)) n = Ok v ->
+  exists k, (k <= length (lu_opts c))%nat /\ n = lu_fland_bytes c + Z.of_nat k * lu_opt_bytes c /\ dec = true /\
+            v = lu_view_of (lu_truncate k c).
+Proof. exact lu_every_prefix. Qed.
+Print Assumptions C14_landuse_every_prefix.
+
+Example C14_landuse_cuts :
+  let c := {| lu_new := true; lu_nland := 11; lu_rows := 1; lu_cols := 2; lu_fland := map Z.of_nat (seq 100 22);
+              lu_opts := [(lu_key_LAI, [1; 2]); (lu_key_TOPO, [3; 4])] |} in
+  lu_wf c = true /\ length (lu_enc c) = 44%nat
+  /\ lu_mm_read true 1 2 (firstn 3 (lu_enc c)) 12 = Err
+  /\ lu_mm_read true 1 2 (firstn 28 (lu_enc c)) 111 = Err
+  /\ lu_mm_read true 1 2 (firstn 28 (lu_enc c)) 112 = Ok (lu_view_of (lu_truncate 0 c))     (* the land-use record *)
+  /\ lu_mm_read true 1 2 (firstn 32 (lu_enc c)) 128 = Err                                    (* ... and the LAI key record *)
+  /\ lu_mm_read true 1 2 (firstn 36 (lu_enc c)) 144 = Ok (lu_view_of (lu_truncate 1 c))
+  /\ lu_mm_read true 1 2 (firstn 44 (lu_enc c)) 176 = Ok (lu_view_of c).
+Proof. vm_compute. repeat split. Qed.
